@@ -5,6 +5,7 @@
  */
 
 use core::any::{Any, TypeId};
+use core::convert::TryFrom;
 use alloc::rc::Rc;
 use alloc::string::ToString;
 use alloc::string::String;
@@ -65,8 +66,8 @@ impl DataItem for DateItem {
                 match self.get_year_from_duration(duration) {
                     0 => (),
                     n => {
-                        let years_diff = date.year() + n as i32;
-                        date     = NaiveDate::from_ymd(years_diff as i32, date.month() as u32, date.day());
+                        let years_diff = date.year().checked_add(i32::try_from(n).ok()?)?;
+                        date     = NaiveDate::from_ymd_opt(years_diff, date.month() as u32, date.day())?;
                         duration = Duration::seconds(duration.num_seconds() - (YEAR * n))
                     }
                 };
@@ -74,21 +75,23 @@ impl DataItem for DateItem {
                 match self.get_month_from_duration(duration) {
                     0 => (),
                     n => {
-                        let years_diff = (date.month() + n as u32) / 12;
-                        let month = (date.month() + n as u32) % 12;
-                        date     = NaiveDate::from_ymd(date.year() + years_diff as i32, month as u32, date.day());
+                        /* Months are counted from zero, otherwise a sum landing on December has no month */
+                        let months = date.month0() + n as u32;
+                        let years_diff = months / 12;
+                        let month = (months % 12) + 1;
+                        date     = NaiveDate::from_ymd_opt(date.year() + years_diff as i32, month as u32, date.day())?;
                         duration = Duration::seconds(duration.num_seconds() - (MONTH * n))
                     }
                 };
-                Some(Rc::new(DateItem(date + duration, self.1.clone())))
+                Some(Rc::new(DateItem(date.checked_add_signed(duration)?, self.1.clone())))
             },
 
             OperationType::Sub => {
                 match self.get_year_from_duration(duration) {
                     0 => (),
                     n => {
-                        let years_diff = date.year() - n as i32;
-                        date     = NaiveDate::from_ymd(years_diff as i32, date.month() as u32, date.day());
+                        let years_diff = date.year().checked_sub(i32::try_from(n).ok()?)?;
+                        date     = NaiveDate::from_ymd_opt(years_diff, date.month() as u32, date.day())?;
                         duration = Duration::seconds(duration.num_seconds() - (YEAR * n))
                     }
                 };
@@ -102,11 +105,11 @@ impl DataItem for DateItem {
                             months += 12;
                         }
 
-                        date = NaiveDate::from_ymd(years as i32, months as u32, date.day());
+                        date = NaiveDate::from_ymd_opt(years as i32, months as u32, date.day())?;
                         duration = Duration::seconds(duration.num_seconds() - (MONTH * n))
                     }
                 };
-                Some(Rc::new(DateItem(date - duration, self.1.clone())))
+                Some(Rc::new(DateItem(date.checked_sub_signed(duration)?, self.1.clone())))
             },
             _ => None
         }
